@@ -190,37 +190,45 @@ def check_append(c, f, loop):
 
 
 def check_dispatch(c, f, loop):
+    """the three-way dispatch on the response object, stated as path conditions so that it does not matter whether it is
+    written as if/elif/else, as guard clauses, with `or` or with its De Morgan dual"""
     g = f.cfg
     R = 'responses[index]'
-    ts = [t for t in g.nodes if t.kind == 'test' and 'isinstance(responses[index]' in norm(t.ast)]
-    c.need(len(ts) == 2, 'dispatch: expected two isinstance tests on responses[index], found %d' % len(ts))
-    t1, t2 = sorted(ts, key=lambda t: t.id)
-    c.check('allowed_string_types' in norm(t1.ast), f, t1.ast, 'first case: the response is a string', kind='ast', tag='case-string')
-    sr = holds_region(g, t1, True)
-    sends = [(n, k) for n, k in cfg_nodes_with_call(f, lambda k: callee_last(k) == 'send') if n in sr]
-    ok = len(sends) == 1 and norm(sends[0][1].args[0]) == R
-    c.check(ok, f, sends[0][1] if sends else t1.ast, 'a string response is sent to the child exactly once', witness=str([norm(k) for n, k in sends]), kind='ast', tag='string-sent')
-    c2 = core(t2)
-    okc = isinstance(c2, ast.BoolOp) and isinstance(c2.op, ast.Or) and sorted(norm(v) for v in c2.values) == sorted(
-        ['isinstance(responses[index], types.FunctionType)', 'isinstance(responses[index], types.MethodType)'])
-    c.check(okc, f, t2.ast, 'second case: function OR method', witness=norm(t2.ast), kind='ast', tag='case-callable')
-    cr = holds_region(g, t2, True)
-    calls_ = [(n, k) for n in cr for k in node_calls(n) if norm(k.func) == R]
-    ok = len(calls_) == 1 and len(calls_[0][1].args) == 1 and norm(calls_[0][1].args[0]) == 'locals()' and isinstance(calls_[0][0].ast, ast.Assign)
-    c.check(ok, f, calls_[0][1] if calls_ else t2.ast, 'the callback is called once with the state dictionary locals()', kind='ast', tag='callback-call')
+    S = None
+    for t in g.nodes:
+        if t.kind == 'test' and t.ast is not None:
+            for a_, v_ in expand_condition(t.ast, True) | expand_condition(t.ast, False):
+                if a_.startswith('isinstance(%s' % R) and 'allowed_string_types' in a_:
+                    S = a_
+    c.need(S is not None, 'dispatch: isinstance(responses[index], <string types>) test not found')
+    F, M = 'isinstance(%s, types.FunctionType)' % R, 'isinstance(%s, types.MethodType)' % R
+    disp = lambda cs: set((a_, v_) for a_, v_ in cs if a_.startswith('isinstance(%s' % R))
+    sends = [(n, k) for n, k in cfg_nodes_with_call(f, lambda k: callee_last(k) == 'send') if k.args and norm(k.args[0]) == R]
+    ok = len(sends) == 1 and disp(conditions(g, sends[0][0])) == {(S, True)}
+    c.check(ok, f, sends[0][1] if sends else None, 'first case: a string response is sent to the child exactly once', witness=str([norm(k) for n, k in sends]), kind='path', tag='string-sent')
+    # anything that is neither string nor function nor method raises TypeError -- under exactly that condition
+    rs = [n for n in raises(f) if any(a_.startswith('isinstance(%s' % R) for a_, v_ in conditions(g, n))]
+    got = disp(conditions(g, rs[0])) if len(rs) == 1 else None
+    c.check(got == {(S, False), (F, False), (M, False)} and raised_class(rs[0].ast, f) == 'TypeError', f, rs[0].ast if rs else None,
+            'any other response object (not a string, not a function, not a method) raises TypeError', witness='raised under %s' % sorted(got or []), kind='path', tag='case-else')
+    c.check(got is not None and (F, False) in got and (M, False) in got, f, rs[0].ast if rs else None, 'second case: function OR method', witness=str(sorted(got or [])), kind='path', tag='case-callable')
+    calls_ = [(n, k) for n in g.nodes if n in g.live_nodes() for k in node_calls(n) if norm(k.func) == R]
+    ok = len(calls_) == 1 and len(calls_[0][1].args) == 1 and norm(calls_[0][1].args[0]) == 'locals()' and isinstance(calls_[0][0].ast, ast.Assign) \
+        and disp(conditions(g, calls_[0][0])) <= {(S, False), (F, True), (M, True)} and (S, False) in conditions(g, calls_[0][0]) \
+        and (not rs or g.path(rs[0], calls_[0][0], skip_labels=('exc',)) is None)
+    c.check(ok, f, calls_[0][1] if calls_ else None, 'the callback is called once with the state dictionary locals()', kind='path', tag='callback-call')
     if ok:
-        rv = calls_[0][0].ast.targets[0].id
-        t3 = [t for t in cr if t.kind == 'test' and 'isinstance(%s' % rv in norm(t.ast)]
-        c.check(len(t3) == 1, f, t3[0].ast if t3 else t2.ast, 'a string result is recognised', kind='ast', tag='callback-string')
+        cn = calls_[0][0]
+        rv = cn.ast.targets[0].id
+        after = set(n for n in g.nodes if g.path(cn, n, avoid={g.node_of_stmt(loop)}, skip_labels=('exc',), include_start=False) is not None)
+        t3 = [t for t in after if t.kind == 'test' and 'isinstance(%s' % rv in norm(t.ast)]
+        c.check(len(t3) == 1, f, t3[0].ast if t3 else cn.ast, 'a string result is recognised', kind='ast', tag='callback-string')
         if t3:
             s2 = [(n, k) for n, k in cfg_nodes_with_call(f, lambda k: callee_last(k) == 'send') if n in holds_region(g, t3[0], True)]
             c.check(len(s2) == 1 and is_name(s2[0][1].args[0], rv), f, s2[0][1] if s2 else t3[0].ast, 'a string result is sent to the child once', kind='ast', tag='callback-sent')
             t4 = [t for t in holds_region(g, t3[0], False) if t.kind == 'test' and norm(core(t)) == rv]
             brk = [n for t in t4 for n in holds_region(g, t, True) if n.kind == 'stmt' and isinstance(n.ast, ast.Break)]
             c.check(bool(brk), f, t4[0].ast if t4 else t3[0].ast, 'a true result stops the run', kind='path', tag='callback-stop')
-    er = holds_region(g, t2, False)
-    rs = [n for n in er if n.kind == 'stmt' and isinstance(n.ast, ast.Raise)]
-    c.check(len(rs) == 1 and raised_class(rs[0].ast, f) == 'TypeError', f, rs[0].ast if rs else t2.ast, 'any other response object raises TypeError', kind='ast', tag='case-else')
 
 
 def check_consumed(c, f, loop):
